@@ -73,6 +73,14 @@ def expanded_case(case, G):
         kw["additional_ends"] = [ne[v][1] for v in kw["additional_ends"]]
     if "error_scaling" in kw:
         kw["error_scaling"] = [[list(ne[v]), s] for v, s in kw["error_scaling"]]
+    la = kw.get("length_attr")
+    if la is not None:
+        # node lengths live on the node edges; connector edges have length 0 (as the documented expansion defines it)
+        for e in edges:
+            e[2].pop(la, None)
+        lens = {ne[v]: d.get(la, 1) for v, d in G.nodes(data=True)}
+        for e in edges:
+            e[2][la] = lens.get((e[0], e[1]), 0)
     if cover:
         for e in edges:
             e[2].pop("flow", None)
